@@ -12,10 +12,16 @@ import traceback
 import numpy as np
 
 
+class SolverAbort(Exception):
+    """raised from report_failure while FailureMonitor.abort is set: the result would not be judged anyway, so stop
+    iterating (nested non-converging block solvers otherwise run maxiter**depth sweeps)."""
+
+
 class FailureMonitor:
     def __init__(self):
         self.failures = []
         self.calls = 0
+        self.abort = False
 
     def __enter__(self):
         from openmdao.solvers.solver import Solver
@@ -25,6 +31,8 @@ class FailureMonitor:
 
         def report_failure(slf, msg):
             mon.failures.append((type(slf).__name__, msg))
+            if mon.abort:
+                raise SolverAbort()
             return mon._orig(slf, msg)
         Solver.report_failure = report_failure
         return self
